@@ -242,6 +242,11 @@ fn run_history(hist: &[Op], cap: usize) -> (RunOut, Model) {
                     // every other stream gets its (equal) rule by another route: parsed from a
                     // string with the keys in another order instead of built
                     let alt = streams.len() % 2 == 1;
+                    // a stream that JOINS a live subscription (an equal rule is subscribed) asks for
+                    // a smaller queue than the subscription has: the shared queue must not shrink
+                    // (it holds the other streams' unread messages)
+                    let joins = m.streams[..m.streams.len() - 1].iter().any(|s| s.alive && s.kind == k);
+                    let cap = if joins { 1 } else { cap };
                     let s = w.complete("create", async move {
                         match rule(k) {
                             Some(r) if alt => {
